@@ -165,12 +165,60 @@ def plan(tier):
     return 3, {0: 2, 1: 2, 2: 1}
 
 
+def replace_history(seed, res):
+    """Histories on ONE game object: write, replace a section object (as build does), write again, ..."""
+    from pico8.gfx.gfx import Gfx
+    from pico8.map.map import Map
+    from pico8.gff.gff import Gff
+    from pico8.sfx.sfx import Sfx
+    from pico8.music.music import Music
+    classes = {'gfx': Gfx, 'map': Map, 'gff': Gff, 'music': Music, 'sfx': Sfx}
+    writes = [(0x1ffd, 0x2003), (0x2ffe, 0x3102), (0x31ff, 0x3201), (0, 0x4300), (0x42fe, 0x4300), (0x3000, 0x3100)]
+    for which in list(classes) + ['all']:
+        model = initial(seed, 0)
+        g = make_game(model)
+        hist = []
+        k = 0
+        for rnd in range(3):
+            for (s, e) in writes:
+                k += 1
+                ok, model = apply_and_check(g, model, s, e, fill(seed, k % 5 + 1), res, hist)
+                res.evaluations += 1
+                hist = hist + [[s, e]]
+                if not ok:
+                    # re-tag the violation as history-dependent
+                    for sig in list(res.violations):
+                        if not sig.startswith('C18|after-section-replaced'):
+                            v = res.violations.pop(sig)
+                            res.violations['C18|after-section-replaced|%s|%s' % (which, sig.split('|', 1)[1])] = (
+                                v[0] + ' [after replacing section object(s) %s on the same game]' % which,
+                                {'replace': which, 'hist': hist}, v[2])
+                    return
+            # replace section object(s) with fresh ones holding the same bytes
+            for name, lo, hi in REGIONS:
+                if which in (name, 'all'):
+                    cls = classes[name]
+                    if name == 'map':
+                        setattr(g, name, cls.from_bytes(bytearray(model[lo:hi]), version=33, gfx=g.gfx))
+                    else:
+                        setattr(g, name, cls.from_bytes(bytearray(model[lo:hi]), version=33))
+            if which in ('gfx', 'all'):
+                g.map._gfx = g.gfx
+            res.nontriv(('replace', which, rnd))
+    res.outcome(('replace-history',))
+
+
 def shards(tier, seed):
     depth, deltas = plan(tier)
-    return [(tier, seed, init, i) for init in (0, 1) for i in range(len(WRITES[deltas[0]]))]
+    return [(tier, seed, init, i) for init in (0, 1) for i in range(len(WRITES[deltas[0]]))] + [('replace', seed)]
 
 
 def run_shard(item):
+    if item[0] == 'replace':
+        res = ShardResult()
+        replace_history(item[1], res)
+        res.sample({'history': 'write x6; replace section object(s); write x6; ... on one Game'})
+        return res
     tier, seed, init, i = item
     depth, deltas = plan(tier)
     res = ShardResult()
@@ -184,6 +232,9 @@ def run_shard(item):
 
 def replay(case):
     res = ShardResult()
+    if 'replace' in case:
+        replace_history(0, res)
+        return [(s, v[0]) for s, v in res.violations.items()]
     hist = case['hist']
     for init in (0, 1):
         for seed in (0,):
